@@ -1,10 +1,14 @@
 package c07
 
 // The independent reference: (1) a static, insertion-order independent typing of
-// a construction in which pass-through nodes are transparent (every typed
-// producer that reaches a typed consumer through a chain of pass-through nodes is
-// checked against it with the reference lattice); (2) a simulation of one run that
-// predicts, sink by sink, whether the dynamic value is assignable.
+// a construction in which pass-through nodes without keys are transparent (every
+// typed producer that reaches a typed consumer through a chain of pass-through
+// nodes is checked against it with the reference lattice); (2) a simulation of one
+// run that predicts, sink by sink, whether the dynamic value is assignable. Both
+// are the same for the three front ends (Graph, Chain, Workflow): a chain is a
+// graph built in a fixed order, a workflow connection is an edge that may carry a
+// field mapping, a workflow branch hands its source's value to the chosen end
+// through the data connection the end declares.
 
 import (
 	"fmt"
@@ -14,7 +18,7 @@ import (
 // ---- static reference ---------------------------------------------------------
 
 type conn struct {
-	Kind    string `json:"kind"` // node-input | branch-cond | graph-output | pre-handler | post-handler | handler-state
+	Kind    string `json:"kind"` // node-input | branch-cond | graph-output | pre-handler | post-handler | handler-state | field-mapping | field-path
 	At      string `json:"at"`
 	From    int    `json:"from"`
 	To      int    `json:"to"`
@@ -28,35 +32,70 @@ type staticRef struct {
 	PassCands map[string][]int // passthrough key -> types of every typed neighbour of its component
 }
 
+func (s *Spec) targetInPort(t string) int {
+	if t == END {
+		return s.GO
+	}
+	return s.node(t).inPort()
+}
+
 // sinksOf: typed consumers reached from the output of node u, looking through
-// pass-through nodes. viaPass tells whether a pass-through was crossed.
-func (s *Spec) sinksOf(u string, viaPass bool, seen map[string]bool, f func(kind, at string, to int, viaPass bool)) {
-	for _, c := range s.Calls {
+// transparent pass-through nodes. viaPass tells whether one was crossed.
+// from = the declared type that leaves u (needed where a field mapping takes a part of it).
+func (s *Spec) sinksOf(u string, from int, viaPass bool, seen map[string]bool, f func(kind, at string, from, to int, viaPass bool)) {
+	for ci := range s.Calls {
+		c := &s.Calls[ci]
 		if c.From != u {
 			continue
 		}
 		if c.Branch {
-			f("branch-cond", u, c.Cond, viaPass)
+			f("branch-cond", u, from, c.Cond, viaPass)
 		}
-		for _, t := range c.To {
+		for i, t := range c.To {
+			if m := c.mapping(i); !m.empty() {
+				// a field mapping: the part taken from the source against the part of the target it is put into
+				ft, tt := from, s.targetInPort(t)
+				ok1, ok2 := true, true
+				if m.From != "" {
+					ft, ok1 = fieldType(from, m.From, false)
+				}
+				if m.To != "" {
+					tt, ok2 = fieldType(tt, m.To, true)
+				}
+				if !ok1 || !ok2 {
+					f("field-path", t, -1, -1, viaPass)
+				} else if m.To != "" {
+					f("field-mapping", t, ft, tt, viaPass)
+				} else {
+					f("node-input", t, ft, tt, viaPass)
+				}
+				continue
+			}
 			if t == END {
-				f("graph-output", END, s.GO, viaPass)
+				f("graph-output", END, from, s.GO, viaPass)
 				continue
 			}
 			n := s.node(t)
 			if n.Kind != kPass {
-				f("node-input", t, n.inPort(), viaPass)
+				f("node-input", t, from, n.inPort(), viaPass)
 				continue
 			}
+			// a pass-through node
+			if n.InKey != "" {
+				f("node-input", t, from, tMap, viaPass)
+			}
 			if n.Pre >= 0 {
-				f("pre-handler", t, n.Pre, true)
+				f("pre-handler", t, from, n.Pre, true)
+			}
+			if !n.transparent() {
+				continue // it is a producer of its own (a map, or a map element)
 			}
 			if n.Post >= 0 {
-				f("post-handler", t, n.Post, true)
+				f("post-handler", t, from, n.Post, true)
 			}
 			if !seen[t] {
 				seen[t] = true
-				s.sinksOf(t, true, seen, f)
+				s.sinksOf(t, from, true, seen, f)
 			}
 		}
 	}
@@ -64,34 +103,32 @@ func (s *Spec) sinksOf(u string, viaPass bool, seen map[string]bool, f func(kind
 
 func refStatic(s *Spec) *staticRef {
 	r := &staticRef{PassCands: map[string][]int{}}
-	add := func(from int) func(kind, at string, to int, via bool) {
-		return func(kind, at string, to int, via bool) {
-			l := refLat(from, to)
-			switch l {
-			case latMustNot:
-				r.MustNot = append(r.MustNot, conn{kind, at, from, to, l, via})
-			case latMay:
-				r.May++
-			}
+	add := func(kind, at string, from, to int, via bool) {
+		if kind == "field-path" {
+			r.MustNot = append(r.MustNot, conn{kind, at, -1, -1, latMustNot, via})
+			return
+		}
+		l := refLat(from, to)
+		switch l {
+		case latMustNot:
+			r.MustNot = append(r.MustNot, conn{kind, at, from, to, l, via})
+		case latMay:
+			r.May++
 		}
 	}
-	s.sinksOf(START, false, map[string]bool{}, add(s.GI))
+	s.sinksOf(START, s.GI, false, map[string]bool{}, add)
 	for i := range s.Nodes {
 		n := &s.Nodes[i]
-		if n.Kind == kPass {
+		if n.transparent() {
 			continue
 		}
-		s.sinksOf(n.Key, false, map[string]bool{}, add(n.outPort()))
-		// handlers of a typed node sit on its own ports
-		if n.Pre >= 0 {
-			if n.Pre != n.inPort() {
-				r.MustNot = append(r.MustNot, conn{"pre-handler", n.Key, n.inPort(), n.Pre, refLat(n.inPort(), n.Pre), false})
-			}
+		s.sinksOf(n.Key, n.producerType(), false, map[string]bool{}, add)
+		// handlers sit on the node's own declared ports
+		if n.Pre >= 0 && n.inPort() >= 0 && n.Pre != n.inPort() {
+			r.MustNot = append(r.MustNot, conn{"pre-handler", n.Key, n.inPort(), n.Pre, refLat(n.inPort(), n.Pre), false})
 		}
-		if n.Post >= 0 {
-			if n.Post != n.outPort() {
-				r.MustNot = append(r.MustNot, conn{"post-handler", n.Key, n.outPort(), n.Post, refLat(n.outPort(), n.Post), false})
-			}
+		if n.Post >= 0 && n.outPort() >= 0 && n.Post != n.outPort() {
+			r.MustNot = append(r.MustNot, conn{"post-handler", n.Key, n.outPort(), n.Post, refLat(n.outPort(), n.Post), false})
 		}
 	}
 	for i := range s.Nodes {
@@ -100,21 +137,25 @@ func refStatic(s *Spec) *staticRef {
 			r.MustNot = append(r.MustNot, conn{"handler-state", n.Key, -1, -1, latMustNot, false})
 		}
 	}
-	// candidate types of pass-through components
+	// candidate types of the (inner) type of pass-through nodes: the types of the typed
+	// neighbours of the node's component. Two connected pass-through nodes belong to one
+	// component unless a key sits in between (a keyed side has the declared type map).
+	linked := func(a, b *Node) bool {
+		return a != nil && b != nil && a.Kind == kPass && b.Kind == kPass && a.OutKey == "" && b.InKey == ""
+	}
 	for i := range s.Nodes {
 		p := &s.Nodes[i]
 		if p.Kind != kPass {
 			continue
 		}
 		set := map[int]bool{}
-		// component of p (undirected over pass-through/pass-through connections)
 		comp := map[string]bool{p.Key: true}
 		for changed := true; changed; {
 			changed = false
 			for _, c := range s.Calls {
 				for _, t := range c.To {
 					a, b := s.node(c.From), s.node(t)
-					if a == nil || b == nil || a.Kind != kPass || b.Kind != kPass {
+					if !linked(a, b) {
 						continue
 					}
 					if comp[a.Key] != comp[b.Key] {
@@ -125,22 +166,26 @@ func refStatic(s *Spec) *staticRef {
 			}
 		}
 		for _, c := range s.Calls {
-			if comp[c.From] && c.Branch {
+			a := s.node(c.From)
+			if comp[c.From] && c.Branch && a.OutKey == "" {
 				set[c.Cond] = true
 			}
 			for _, t := range c.To {
-				if comp[c.From] && !comp[t] {
+				b := s.node(t)
+				if comp[c.From] && a.OutKey == "" && !(comp[t] && linked(a, b)) {
+					// what leaves the component here
 					if t == END {
 						set[s.GO] = true
-					} else if n := s.node(t); n.Kind != kPass {
-						set[n.inPort()] = true
+					} else if b.inPort() >= 0 {
+						set[b.inPort()] = true
 					}
 				}
-				if comp[t] && !comp[c.From] {
+				if comp[t] && b.InKey == "" && !(comp[c.From] && linked(a, b)) {
+					// what enters the component here
 					if c.From == START {
 						set[s.GI] = true
-					} else if n := s.node(c.From); n.Kind != kPass {
-						set[n.outPort()] = true
+					} else if pt := a.producerType(); pt >= 0 {
+						set[pt] = true
 					}
 				}
 			}
@@ -155,13 +200,13 @@ func refStatic(s *Spec) *staticRef {
 	return r
 }
 
-// staticConcreteMismatch: a connection between two typed ends whose upstream
-// type is not an interface and that no value can cross: the construction must
-// be rejected (the part of the property about concretely typed connections).
+// concreteMustNot: connections between two typed ends whose upstream type is
+// not an interface and that no value can cross: the construction must be
+// rejected (the part of the property about concretely typed connections).
 func (r *staticRef) concreteMustNot() []conn {
 	var out []conn
 	for _, c := range r.MustNot {
-		if c.Kind == "handler-state" || !isIface(c.From) {
+		if c.Kind == "handler-state" || c.Kind == "field-path" || !isIface(c.From) {
 			out = append(out, c)
 		}
 	}
@@ -171,14 +216,16 @@ func (r *staticRef) concreteMustNot() []conn {
 // ---- simulation of one run -----------------------------------------------------
 
 type flow struct {
-	val   any
-	st    int  // static type: of the last typed producer, or the inferred type of the last typed pass-through
-	via   bool // crossed a pass-through since the last typed producer
-	multi bool // in Stream mode this value arrives as several chunks (fan-in of keyed outputs)
+	val     any
+	st      int    // static type: of the last typed producer, or the inferred type of the last typed pass-through
+	via     bool   // crossed a pass-through since the last typed producer
+	multi   bool   // in Stream mode this value arrives as several chunks (fan-in of keyed outputs / mapped fields)
+	to      string // arrives through a field mapping into this field of the target's input ("" = as the whole input)
+	lenient bool   // taken by a field mapping: eino checks it with Go's assignability, not with a type assertion
 }
 
 type simFail struct {
-	Kind    string `json:"kind"` // node-input | passthrough-input | branch-cond | pre-handler | post-handler | input-key-element | graph-output | handler-state
+	Kind    string `json:"kind"` // node-input | passthrough-input | branch-cond | pre-handler | post-handler | handler-output | input-key-element | field-mapping | field-path | graph-output | handler-state
 	At      string `json:"at"`
 	OnPass  bool   `json:"on_pass,omitempty"`  // the sink sits on a pass-through node (branch / handler)
 	ViaPass bool   `json:"via_pass,omitempty"` // the value crossed a pass-through on its way
@@ -192,23 +239,37 @@ type simFail struct {
 type simResult struct {
 	Unjudged       string
 	UnjudgedStream string // only the Stream run cannot be judged (needs a concat of non-map chunks)
+	Skip           string // the run is not made at all (a nil value would be the graph's final output)
 	Fails          []simFail
 	Out            any
 	Reached        bool
 	Exec           []string // typed + pass-through nodes expected to execute (sorted)
+	NilSeen        bool     // a nil interface value reached some sink
 }
 
 type simulator struct {
 	s     *Spec
 	p     *runParams
-	ptype map[string]int // declared (= inferred, as reported by eino) types of pass-through nodes; missing: transparent
+	ptype map[string]int // declared (= inferred, as reported by eino) inner types of pass-through nodes; missing: unknown
 	res   *simResult
 	arr   map[string][]flow
 }
 
 func (m *simulator) check(f flow, to int, kind, at string, onPass bool) bool {
+	if f.val == nil {
+		m.res.NilSeen = true
+	}
 	if dynOK(f.val, to) {
 		return true
+	}
+	if f.lenient {
+		// eino's field-mapping checker: reflect's AssignableTo (twins pass), a nil value passes for every nillable kind
+		if f.val == nil || goAssignable(f.val, to) {
+			if m.res.Unjudged == "" {
+				m.res.Unjudged = fmt.Sprintf("a %s value taken by a field mapping for a %s at %s %s: outside the type-assertion lattice", dynName(f.val), typeNames[to], kind, at)
+			}
+			return false
+		}
 	}
 	l := refLat(f.st, to)
 	if l == latMust {
@@ -218,6 +279,10 @@ func (m *simulator) check(f flow, to int, kind, at string, onPass bool) bool {
 	m.res.Fails = append(m.res.Fails, simFail{Kind: kind, At: at, OnPass: onPass, ViaPass: f.via,
 		From: typeNames[f.st], To: typeNames[to], Lat: l.String(), Dyn: dynName(f.val), static: !isIface(f.st)})
 	return false
+}
+
+func (m *simulator) badPath(at, what string) {
+	m.res.Fails = append(m.res.Fails, simFail{Kind: "field-path", At: at, From: what, static: true})
 }
 
 // needConcat: a consumer that reads its input as ONE value of declared type t.
@@ -240,19 +305,41 @@ func (m *simulator) emit(u string, f flow, onPass bool) {
 		}
 	}
 	sent := map[string]bool{}
-	for _, c := range m.s.Calls {
+	for ci := range m.s.Calls {
+		c := &m.s.Calls[ci]
 		if c.From != u {
 			continue
 		}
-		t := c.To[0]
+		ti := 0
 		if c.Branch {
-			t = c.To[m.p.choice[c.Group]%len(c.To)]
+			ti = m.p.choice[c.Group] % len(c.To)
 		}
+		t := c.To[ti]
 		if sent[t] {
 			continue
 		}
 		sent[t] = true
-		m.arr[t] = append(m.arr[t], f)
+		g := f
+		if mp := c.mapping(ti); !mp.empty() {
+			if mp.From != "" {
+				ft, ok := fieldType(f.st, mp.From, false)
+				if !ok {
+					m.badPath(t, fmt.Sprintf("%s has no field %q", typeNames[f.st], mp.From))
+					continue
+				}
+				v, have := takeField(f.val, mp.From)
+				if !have {
+					if m.res.Unjudged == "" {
+						m.res.Unjudged = fmt.Sprintf("mapped key %q missing in the value of %s", mp.From, u)
+					}
+					continue
+				}
+				g = flow{val: v, st: ft, lenient: true}
+			}
+			g.to = mp.To
+			g.lenient = true
+		}
+		m.arr[t] = append(m.arr[t], g)
 	}
 }
 
@@ -276,6 +363,41 @@ func mergeFlows(fl []flow) (flow, bool) {
 	return flow{val: mm, st: tMap, via: false, multi: true}, true
 }
 
+// assemble: the input of a node (or END) of declared type inPort fed by field
+// mappings: every mapped value is checked against the field it is put into.
+func (m *simulator) assemble(fl []flow, inPort int, at string) (flow, bool) {
+	fields := map[string]any{}
+	for _, f := range fl {
+		if f.to == "" {
+			m.res.Unjudged = "whole value and mapped fields meet at " + at
+			return flow{}, false
+		}
+		tt, ok := fieldType(inPort, f.to, true)
+		if !ok {
+			m.badPath(at, fmt.Sprintf("%s has no field %q", typeNames[inPort], f.to))
+			return flow{}, false
+		}
+		if !m.check(f, tt, "field-mapping", at, false) {
+			return flow{}, false
+		}
+		if _, dup := fields[f.to]; dup {
+			m.res.Unjudged = "two values for one mapped field at " + at
+			return flow{}, false
+		}
+		fields[f.to] = f.val
+	}
+	return flow{val: buildFromFields(inPort, fields), st: inPort, multi: len(fl) > 1}, true
+}
+
+func anyMapped(fl []flow) bool {
+	for _, f := range fl {
+		if f.to != "" {
+			return true
+		}
+	}
+	return false
+}
+
 func (m *simulator) handlerState(n *Node, pre bool) bool {
 	bad := !m.s.State
 	if pre && n.PreState == 1 || !pre && n.PostState == 1 {
@@ -285,6 +407,41 @@ func (m *simulator) handlerState(n *Node, pre bool) bool {
 		m.res.Fails = append(m.res.Fails, simFail{Kind: "handler-state", At: n.Key, OnPass: n.Kind == kPass, static: true})
 	}
 	return !bad
+}
+
+// handler runs a state handler declared on type ht over f: the value must fit the
+// handler's type; what the handler hands on (its own declared type travels with
+// it) must fit the port the handler sits on (port < 0: no declared type there).
+func (m *simulator) handler(n *Node, pre bool, f flow, port int) (flow, bool) {
+	ht, stream, conv, kind, slot := n.Pre, n.PreStream, n.PreConv, "pre-handler", "pre:"+n.Key
+	if !pre {
+		ht, stream, conv, kind, slot = n.Post, n.PostStream, n.PostConv, "post-handler", "post:"+n.Key
+	}
+	onPass := n.Kind == kPass
+	if !m.handlerState(n, pre) {
+		return f, false
+	}
+	if !stream || conv > 0 {
+		if !stream {
+			m.needConcat(f, ht, kind+" of "+n.Key)
+		}
+		f.multi = false
+	}
+	if !m.check(f, ht, kind, n.Key, onPass) {
+		return f, false
+	}
+	if conv > 0 {
+		f.val = m.p.hVal[slot]
+	}
+	if port >= 0 {
+		if !m.check(flow{val: f.val, st: ht, via: f.via}, port, "handler-output", n.Key, onPass) {
+			return f, false
+		}
+		f.st = port
+	} else if conv > 0 || !isIface(ht) {
+		f.st = ht
+	}
+	return f, true
 }
 
 func simulate(s *Spec, p *runParams, input any, ptype map[string]int) *simResult {
@@ -300,144 +457,167 @@ func simulate(s *Spec, p *runParams, input any, ptype map[string]int) *simResult
 		if res.Unjudged != "" {
 			return res
 		}
-		if n.Kind == kPass {
-			pt, typed := ptype[n.Key]
-			typed = typed && pt >= 0
+		pass := n.Kind == kPass
+		// the declared type of the node's inside: a lambda's input type, the (inferred,
+		// reported) type of a pass-through node or -1
+		inner := n.In
+		if pass {
+			inner = -1
+			if pt, ok := ptype[n.Key]; ok && pt >= 0 {
+				inner = pt
+			}
+		}
+		portIn, portOut := n.inPort(), n.outPort()
+		if pass && portIn < 0 {
+			portIn = inner
+		}
+		if pass && portOut < 0 {
+			portOut = inner
+		}
+		var f flow
+		if anyMapped(fl) {
+			if pass {
+				res.Unjudged = "field mapping into a pass-through node " + n.Key
+				return res
+			}
+			var ok bool
+			if f, ok = m.assemble(fl, portIn, n.Key); !ok {
+				if res.Unjudged != "" {
+					return res
+				}
+				continue
+			}
+		} else {
+			// every incoming connection is checked against the input port
 			okAll := true
-			for _, f := range fl {
-				if typed && !m.check(f, pt, "passthrough-input", n.Key, false) {
+			for _, x := range fl {
+				kind := "node-input"
+				if pass && n.InKey == "" {
+					kind = "passthrough-input"
+				}
+				if portIn >= 0 && !m.check(x, portIn, kind, n.Key, false) {
 					okAll = false
 					break
 				}
 			}
 			if !okAll {
+				if res.Unjudged != "" {
+					return res
+				}
 				continue
 			}
-			f, ok := mergeFlows(fl)
-			if !ok {
+			var ok bool
+			if f, ok = mergeFlows(fl); !ok {
 				res.Unjudged = "fan-in of values that cannot merge at " + n.Key
 				return res
 			}
+		}
+		if pass {
 			f.via = true
-			if typed {
-				f.st = pt
+			if portIn >= 0 {
+				f.st = portIn
 			}
 			res.Exec = append(res.Exec, n.Key)
-			if n.Pre >= 0 {
-				if !m.handlerState(n, true) {
-					continue
-				}
-				if !n.PreStream {
-					m.needConcat(f, n.Pre, "pre handler of "+n.Key)
-					f.multi = false
-				}
-				if !m.check(f, n.Pre, "pre-handler", n.Key, true) {
-					continue
-				}
-			}
-			if n.Post >= 0 {
-				if !m.handlerState(n, false) {
-					continue
-				}
-				if !n.PostStream {
-					m.needConcat(f, n.Post, "post handler of "+n.Key)
-					f.multi = false
-				}
-				if !m.check(f, n.Post, "post-handler", n.Key, true) {
-					continue
-				}
-			}
-			m.emit(n.Key, f, true)
-			continue
+		} else {
+			f.st, f.via = portIn, false
 		}
-		// typed node: every incoming connection is checked against the input port
-		okAll := true
-		for _, f := range fl {
-			if !m.check(f, n.inPort(), "node-input", n.Key, false) {
-				okAll = false
-				break
-			}
-		}
-		if !okAll {
-			continue
-		}
-		f, ok := mergeFlows(fl)
-		if !ok {
-			res.Unjudged = "fan-in of values that cannot merge at " + n.Key
-			return res
-		}
-		f.st, f.via = n.inPort(), false
 		if n.Pre >= 0 {
-			if !m.handlerState(n, true) {
-				continue
-			}
-			if !n.PreStream {
-				m.needConcat(f, n.Pre, "pre handler of "+n.Key)
-				f.multi = false
-			}
-			if !m.check(f, n.Pre, "pre-handler", n.Key, false) {
-				continue
-			}
-			// the handler returns a value of its own declared type, which the node then asserts
-			if !m.check(flow{val: f.val, st: n.Pre}, n.inPort(), "node-input", n.Key, false) {
+			var ok bool
+			if f, ok = m.handler(n, true, f, portIn); !ok {
+				if res.Unjudged != "" {
+					return res
+				}
 				continue
 			}
 		}
 		if n.Kind == kInv {
-			m.needConcat(f, n.inPort(), "invokable node "+n.Key)
+			m.needConcat(f, portIn, "invokable node "+n.Key)
 		}
-		in := f.val
 		if n.InKey != "" {
-			mm := in.(map[string]any)
+			mm, isMap := f.val.(map[string]any)
+			if !isMap {
+				res.Unjudged = "simulator inconsistent: input key on a non-map value at " + n.Key
+				return res
+			}
 			e, ok := mm[n.InKey]
 			if !ok {
 				res.Unjudged = "input key missing at " + n.Key
 				return res
 			}
-			if !m.check(flow{val: e, st: tAny}, n.In, "input-key-element", n.Key, false) {
-				continue
+			f = flow{val: e, st: tAny, via: f.via}
+			if inner >= 0 {
+				if !m.check(f, inner, "input-key-element", n.Key, false) {
+					if res.Unjudged != "" {
+						return res
+					}
+					continue
+				}
+				f.st = inner
 			}
-			in = e
 		}
-		res.Exec = append(res.Exec, n.Key)
-		var out any
-		if n.Echo && dynOK(in, n.Out) {
-			out = in
+		var of flow
+		if pass {
+			of = f
 		} else {
-			out = p.outVal[n.Key]
+			res.Exec = append(res.Exec, n.Key)
+			var out any
+			if n.Echo && f.val != nil && dynOK(f.val, n.Out) {
+				out = f.val
+			} else {
+				out = p.outVal[n.Key]
+			}
+			of = flow{val: out, st: n.Out}
 		}
-		of := flow{val: out, st: n.Out}
 		if n.OutKey != "" {
-			of = flow{val: map[string]any{n.OutKey: out}, st: tMap}
+			if of.multi && res.UnjudgedStream == "" {
+				res.UnjudgedStream = "several chunks are wrapped under one output key at " + n.Key
+			}
+			of = flow{val: map[string]any{n.OutKey: of.val}, st: tMap}
 		}
 		if n.Post >= 0 {
-			if !m.handlerState(n, false) {
-				continue
-			}
-			if !m.check(of, n.Post, "post-handler", n.Key, false) {
+			var ok bool
+			if of, ok = m.handler(n, false, of, portOut); !ok {
+				if res.Unjudged != "" {
+					return res
+				}
 				continue
 			}
 		}
-		m.emit(n.Key, of, false)
+		m.emit(n.Key, of, pass)
 	}
 	if res.Unjudged != "" {
 		return res
 	}
 	fl := m.arr[END]
+	for _, x := range fl {
+		if x.val == nil {
+			// the engine reads a nil final output as "no result yet": outside the property
+			res.Skip = "a nil value would be delivered to END as the final output"
+		}
+	}
 	if len(fl) > 0 {
+		var f flow
 		ok := true
-		for _, f := range fl {
-			if !m.check(f, s.GO, "graph-output", END, false) {
-				ok = false
-				break
+		if anyMapped(fl) {
+			f, ok = m.assemble(fl, s.GO, END)
+		} else {
+			for _, x := range fl {
+				if !m.check(x, s.GO, "graph-output", END, false) {
+					ok = false
+					break
+				}
+			}
+			if ok {
+				if f, ok = mergeFlows(fl); !ok {
+					res.Unjudged = "fan-in of values that cannot merge at END"
+					return res
+				}
 			}
 		}
+		if res.Unjudged != "" {
+			return res
+		}
 		if ok {
-			f, mok := mergeFlows(fl)
-			if !mok {
-				res.Unjudged = "fan-in of values that cannot merge at END"
-				return res
-			}
 			res.Out, res.Reached = f.val, true
 		}
 	}
